@@ -30,6 +30,7 @@ type fn struct {
 	appends map[string]bool // journal entry kinds appended directly
 	calls   map[string]bool // names of called functions / methods (by bare name)
 	retNil  bool            // every return statement returns the identifier nil
+	body    *ast.BlockStmt
 }
 
 func recvName(fd *ast.FuncDecl) string {
@@ -73,7 +74,7 @@ func main() {
 			if !ok || fd.Body == nil {
 				continue
 			}
-			x := &fn{recv: recvName(fd), name: fd.Name.Name, appends: map[string]bool{}, calls: map[string]bool{}, retNil: true}
+			x := &fn{recv: recvName(fd), name: fd.Name.Name, appends: map[string]bool{}, calls: map[string]bool{}, retNil: true, body: fd.Body}
 			nret := 0
 			ast.Inspect(fd.Body, func(nd ast.Node) bool {
 				switch v := nd.(type) {
@@ -222,6 +223,36 @@ func main() {
 	for _, k := range kinds {
 		if k.name == "sizeChange" {
 			sizeRejournals = k.rejournal
+		}
+	}
+	// storageChange.revert is the single statement  <obj>.setState(ch.key, ch.prevalue)  and
+	// stateObject.setState is the single statement  s.dirtyStorage[key] = value : reverting a storage write
+	// puts the previous value back into the layer the write went to, whatever the other caches hold
+	storageRevertPlain, setStatePlain := false, false
+	selName := func(e ast.Expr) string {
+		if se, ok := e.(*ast.SelectorExpr); ok {
+			return se.Sel.Name
+		}
+		if id, ok := e.(*ast.Ident); ok {
+			return id.Name
+		}
+		return ""
+	}
+	for _, f := range fns {
+		if f.recv == "storageChange" && f.name == "revert" && len(f.body.List) == 1 {
+			if es, ok := f.body.List[0].(*ast.ExprStmt); ok {
+				if ce, ok := es.X.(*ast.CallExpr); ok && selName(ce.Fun) == "setState" && len(ce.Args) == 2 &&
+					selName(ce.Args[0]) == "key" && selName(ce.Args[1]) == "prevalue" {
+					storageRevertPlain = true
+				}
+			}
+		}
+		if f.recv == "stateObject" && f.name == "setState" && len(f.body.List) == 1 {
+			if as, ok := f.body.List[0].(*ast.AssignStmt); ok && as.Tok == token.ASSIGN && len(as.Lhs) == 1 && len(as.Rhs) == 1 {
+				if ix, ok := as.Lhs[0].(*ast.IndexExpr); ok && selName(ix.X) == "dirtyStorage" && selName(ix.Index) == "key" && selName(as.Rhs[0]) == "value" {
+					setStatePlain = true
+				}
+			}
 		}
 	}
 	ef, err := parser.ParseFile(fset, filepath.Join(*repo, "core", "vm", "evm.go"), nil, 0)
@@ -483,6 +514,8 @@ func main() {
 	fmt.Fprintf(&sb, "Definition gen_size_revert_rejournals : bool := %s.  (* sizeChange.revert goes through a journalling setter *)\n", b(sizeRejournals))
 	fmt.Fprintf(&sb, "Definition gen_evm_revert_restores_batch : bool := %s. (* EVM.revertToSnapshot writes to the batch *)\n", b(evmRestoresBatch))
 	fmt.Fprintf(&sb, "Definition gen_create_reverts_on_codestore_oog : bool := %s. (* EVM.create reverts when the code deposit runs out of gas *)\n", b(!createExemptsCodeStoreOOG))
+	fmt.Fprintf(&sb, "Definition gen_storage_revert_plain : bool := %s. (* storageChange.revert is exactly obj.setState(ch.key, ch.prevalue) *)\n", b(storageRevertPlain))
+	fmt.Fprintf(&sb, "Definition gen_setstate_plain : bool := %s. (* stateObject.setState is exactly s.dirtyStorage[key] = value *)\n", b(setStatePlain))
 	sb.WriteString("\n(* functions of *EVM that run code in a frame: name, calls of evm.snapshot(), of evm.revertToSnapshot(), direct uses of the StateDB revision *)\n")
 	sb.WriteString("Definition evm_frame_functions : list (string * nat * nat * nat) := [\n")
 	for i, ff := range frameFns {
